@@ -816,3 +816,16 @@ M('k24a-waiters-recorded-with-setdefault', ['C13', 'C06', 'C01'], S, "        if
 M('r9-7-amounts-in-a-set-is-not-a-gate-matter', ['C09'], Y22 + 'f1040.py', "            return sum([v[f'w-2:{n}.box_1'] for n in range(i['number_w-2'])]) if i['number_w-2'] > 0 else None\n",
   "            return sum({v[f'w-2:{n}.box_1'] for n in range(i['number_w-2'])}) if i['number_w-2'] > 0 else None\n", None,
   'the wage total of a refusing line loses amounts (C02/C16 report it): every copy is still tested for the statutory-employee box', expect='silent')
+M('r2-9-conditional-summand-as-an-expression', ['C02', 'C09'], Y22 + 'f1040.py', L5_22,
+  "                ira = v[f'1099-r:{n}.box_7_ira_sep_simple']\n                if not ira and v[f'1099-r:{n}.box_2b_taxable_not_determined']:\n                    self.not_implemented()\n"
+  "                distributions += 0.0 if ira else v[f'1099-r:{n}.box_1']\n                taxable_amount += 0.0 if ira else v[f'1099-r:{n}.box_2a']\n", None,
+  'the pension copies selected with conditional expressions instead of an if block', expect='silent')
+M('k41-validator-fills-a-local-list', ['C03'], IN, "        if len(ssn) != 9:\n            return False\n", "        seen = []\n        seen.append(len(ssn))\n        if seen[0] != 9:\n            return False\n", None,
+  'a method of an input class fills a local list', expect='silent')
+M('r19-11-decision-over-locals', ['C19'], 'habutax/forms/ty2023/fnc_d_400_sa.py', "        return values['nc_d-400_sa.10'] > values['nc_d-400_sa.nc_standard_deduction']\n",
+  "        itemized = values['nc_d-400_sa.10']\n        standard = values['nc_d-400_sa.nc_standard_deduction']\n        return standard < itemized\n", None,
+  'the two amounts kept in locals and compared the other way round', expect='silent')
+M('k40-filler-tables-built-by-a-helper', ['C14', 'C19'], PF, "        self.forms = []\n        self._field_map = {}\n", "        self.forms, self._field_map = [], {}\n", None,
+  'the two tables of the filler assigned in one statement', expect='silent')
+M('k39-year-option-with-a-short-form', ['C07', 'C14'], CLI, "    solve_parser.add_argument(\n        '--year',\n", "    solve_parser.add_argument(\n        '-y', '--year',\n", None,
+  'the solve sub-command also accepts -y', expect='silent')
